@@ -21,12 +21,12 @@ checks = [
     check("C04", "exploration",
           "Seeded search over fault-derived inputs (hostile lengths/counts/indices spliced into valid encodings, bit flips, truncation, nesting streams up to 200000 levels) x limit configurations x slice/reader paths, each decode executed in a child worker process with allocator, stack, source-step and callback monitors; two-sided limit oracles on valid encodings. Sampling, not proof: the 'every byte string' clause is sampled, the resource clauses are what the simulation decides.",
           "DESIGN.md §4 C04",
-          "Trusts the reference datum encoder (to aim hostile numbers and to know which inputs are valid), the SimAlloc accounting, an 8 MiB main-thread stack in worker processes, and a 10 s wall-clock hang detector outside the simulated system.",
+          "Trusts the reference datum encoder (to aim hostile numbers and to know which inputs are valid), the SimAlloc accounting, an 8 MiB main-thread stack in worker processes, and a 60 s wall-clock hang detector outside the simulated system; the ignoring target is the simulator's own counting visitor, so unbounded work is normally seen as a callback count first.",
           "deterministic simulation: seeded fault-derived inputs + simulated source/allocator monitors in isolated worker processes"),
     check("C05", "exploration",
           "Seeded search over writer histories x codec x level x approx_block_size x flush/push patterns, files read back through the slice reader and simulated stream readers (refill schedules down to 1 byte, cuts inside block headers / codec trailers / sync markers, BufReader capacities around 8192); oracle: every call Ok, exactly the written values then a stable end of stream, same user metadata. Fault-free configuration of the container world, run separately from C15-C17.",
           "DESIGN.md §4 C05",
-          "Trusts the simulator's Val/Presented/Capture caller stubs; xz presets 7-9 not exercised.",
+          "Trusts the simulator's Val/Presented/Capture caller stubs (canonical and documented-equivalent serde calls; capturing and partly ignoring targets); xz presets 7-9 only in a small fraction of scenarios (cost).",
           "deterministic simulation: seeded op histories + simulated BufRead refill schedules, real writer/reader/codecs"),
     check("C06", "exploration",
           "Refinement against an independent reference container model written from the specification: direction A, every crate-written file must be accepted by the reference parser (magic, metadata, codec framing through the codec libraries' own APIs, CRC-32 big-endian over uncompressed data, sync, counts) and decode to the written values; direction B, reference-written files under PRNG-chosen free choices (partitioning, metadata order/splitting/negative counts, absent avro.codec, datum block layouts) and apache-avro-written files must be read by the crate through slice and simulated stream readers; apache-avro must read the crate's files.",
@@ -46,12 +46,12 @@ checks = [
     check("C15", "exploration",
           "Seeded writer histories with failing values (failure at an arbitrary serde call / depth), pushes, flushes, into_inner / drop x codec x approx_block_size; after EVERY API call that returned, the bytes accepted by the sink (= what survives a crash there) are judged by the reference container parser and datum decoder: complete valid file, values a prefix of the accepted ones, all of them after finish_block / into_inner / drop, failed values contribute nothing, snapshots monotone.",
           "DESIGN.md §4 C15",
-          "Sink accepts everything (sink faults are C16's); crash = nothing after the last accepted byte exists.",
+          "Sink accepts everything (sink faults are C16's) except, in a quarter of the scenarios, one cleanly refused write of an explicit finish_block followed by a healthy sink (the statement's 'whenever a call has returned without error' covers the calls after it); crash = nothing after the last accepted byte exists.",
           "deterministic simulation: crash-point snapshots after every call of seeded histories, judged by a reference model"),
     check("C16", "fault_enumeration",
           "Per workload: accept plans Fixed(k) for 12 values of k around the block-header and sync-marker sizes plus random cycles, on sinks with and without write_vectored; ErrorKind::Interrupted at every sink call index (singly and in bursts); hard error (3 kinds) and Ok(0) at every sink call index. Oracle: schedule-only configurations give every call Ok and a byte-identical stream; a hard fault makes the call during which it fired return Err with the bytes accepted before it a prefix of the baseline.",
           "DESIGN.md §4 C16",
-          "Nothing is asserted after the failing call; faults are not scheduled inside Drop.",
+          "After a CLEAN hard failure (nothing of the failing call accepted) the history continues on the recovered sink and the final stream must equal the baseline (serialize_all excepted); after a failure that accepted part of a block nothing more is asserted; faults are not scheduled inside Drop.",
           "deterministic simulation: enumeration of sink accept schedules and fault points over seeded writer histories"),
     check("C17", "fault_enumeration",
           "Per valid file (crate- or reference-written, all codecs): truncation at every byte offset x 5 reader kinds, every sync byte damaged, every block count and size rewritten to 8 hostile values, snappy CRC / payload damage, a byte xored at every offset, an I/O error (Other / UnexpectedEof / Interrupted) at every source call index of 4 stream readers. Oracles per fault class: genuine prefix only, corruption reported, error reported once then end of stream, no panic / endless loop, Ok(None) sticky.",
